@@ -18,6 +18,7 @@ BOUNDS = {"quick": "per distance function 1 base pair x 3 sweeps x {swap (where 
           "thorough": "all corpus pairs and sweeps"}
 WALL_BUDGET = {"quick": 420, "thorough": 900}
 EXPECTED_EXCEPTIONS = ()
+ASSUMPTIONS = ["distance functions: direction cosines between the primitives' axes/normals/edges are not strictly inside (0,1e-2) of 0 or 1 (the epsilon bands excluded by C11: the value is not the true distance there)"]
 
 MOTIONS = [(R0[7], [0.5, -0.25, 2.0]), (R0[13], [-1000.0, 250.0, 0.125]), (R0[22], [3.0, 3.0, -3.0])]
 SYMMETRIC = {"line_to_line", "line_segment_to_line_segment", "plane_to_plane", "triangle_to_triangle", "rectangle_to_rectangle"}
@@ -31,6 +32,11 @@ class DistMeta(DC.DistScenario):
         self.rel = rel
         if rel["kind"] == "scale":
             self.params = list(self.params) + [("s", 0.01, 100.0)]
+
+    def assume(self, cx):
+        # the returned distance is the true distance only outside the functions' epsilon bands (C11's exclusion);
+        # inside them neither symmetry nor invariance of the value is claimed
+        return list(PR.sweep_assumptions(self.sweep, cx.P)) + self.band_assumptions(cx)
 
     def call(self, cx, inp):
         A, B = inp["A"], inp["B"]
